@@ -1305,6 +1305,52 @@ func runCase(t *testing.T, c *Case, g *vh.Rand, n int, ext string) (term string,
 	return fmt.Sprintf("mkCase %s %s [\n  %s]", cfg, ext, strings.Join(r.hist, ";\n  ")), r.viol, r.tags
 }
 
+// shortenedDeadlineCases: a silence with a far end; a GC while nothing is collectable (anything the store remembers
+// about "nothing to collect before ..." is now armed); then its retention deadline moves EARLIER through an update of
+// the existing silence - Expire, DELETE, or an in-place edit of the end; then GC at new end + retention -1 / 0 / +1 ns
+// (and once more a little later): the silence must be collected exactly from its NEW deadline on, and must stop
+// counting against MaxSilences (a create follows under MaxSilences = 1).
+func shortenedDeadlineCases(g *vh.Rand) []Case {
+	var out []Case
+	mat := [][]Mat{{{0, "a", "1"}}}
+	for _, ret := range []int64{int64(5 * time.Minute), int64(time.Hour), 1} {
+		for _, how := range []string{"expire", "apidelete", "edit-end"} {
+			for _, delta := range []int64{-1, 0, 1} {
+				c := Case{Retention: ret, MaxSil: 1}
+				now := int64(epoch)
+				far := now + int64(vh.Pick(g, []time.Duration{2 * time.Hour, 26 * time.Hour}))
+				c.Ops = append(c.Ops, Op{Kind: "set", Sil: &Sil{Sets: mat, Start: 0, End: far, By: "alice", Comment: "c"}})
+				for i := g.Range(1, 2); i > 0; i-- { // early GC(s): nothing collectable
+					dt := int64(g.Range(1, 90)) * 1_000_000_000
+					now += dt
+					c.Ops = append(c.Ops, Op{Kind: "gc", Dt: dt})
+				}
+				dt := int64(g.Range(1, 600))*1_000_000_000 + int64(g.Intn(3))
+				now += dt
+				newEnd := now
+				switch how {
+				case "expire", "apidelete":
+					c.Ops = append(c.Ops, Op{Kind: how, Dt: dt, ID: "#0"})
+				default:
+					newEnd = now + int64(g.Range(0, 120))*1_000_000_000
+					c.Ops = append(c.Ops, Op{Kind: "set", Dt: dt, Sil: &Sil{ID: "#0", Sets: mat, Start: epoch, End: newEnd, By: "alice", Comment: "shortened"}})
+				}
+				if g.Bool() {
+					c.Ops = append(c.Ops, Op{Kind: "query", Dt: 0, Params: []QP{{Kind: "state", States: []string{"active", "expired"}}}})
+				}
+				target := newEnd + ret + delta
+				c.Ops = append(c.Ops, Op{Kind: "gc", Dt: target - now})
+				now = target
+				c.Ops = append(c.Ops, Op{Kind: "apiget", ID: "#0"},
+					Op{Kind: "set", Dt: 2, Sil: &Sil{Sets: mat, Start: 0, End: now + 2 + int64(time.Hour), By: "bob", Comment: "next"}}, // MaxSilences = 1
+					Op{Kind: "gc", Dt: 1_000_000_000})
+				out = append(out, c)
+			}
+		}
+	}
+	return out
+}
+
 func TestCheck(t *testing.T) {
 	env := vh.GetEnv()
 	run := vh.NewRun(env, "AM.Run.C12Run")
@@ -1340,6 +1386,12 @@ func TestCheck(t *testing.T) {
 			finish(&c, term, viol, tags)
 		}
 		g := vh.NewRand(env.Seed)
+		for _, c := range shortenedDeadlineCases(g.Fork()) {
+			c := c
+			term, viol, tags := runCase(t, &c, nil, 0, "ext0")
+			tags["scripted/shortened-deadline"]++
+			finish(&c, term, viol, tags)
+		}
 		n := env.N(500, 10)
 		maxOps := 14
 		if env.Tier == "thorough" {
